@@ -220,6 +220,21 @@ class Interp:
     def pat_canon(self, p):
         return "|".join(str(x) for x in self.pat_label(p))
 
+    def as_enumval(self, v):
+        """(enum, variant, [payload values]) when `v` is a value built in the code under interpretation by a constructor of
+        one of the crate's enums (`Sink::File(name)`, `Sink::Stdout`), else None"""
+        if not (isinstance(v, dict) and v.get("v") == "hole"):
+            return None
+        if v.get("kind") == "call" and isinstance(v.get("callee"), str) and "::" in v["callee"]:
+            en, var = v["callee"].split("::")[-2:]
+            if en in self.f.enums and var in self.f.variants(en):
+                return en, var, list(v.get("args") or [])
+        if v.get("kind") == "path" and isinstance(v.get("src"), str) and "::" in v["src"]:
+            en, var = v["src"].split("::")[-2:]
+            if en in self.f.enums and var in self.f.variants(en) and not self.f.variant_fields(en, var):
+                return en, var, []
+        return None
+
     def pat_label(self, p):
         cases = rx.pat_cases(p)
         names = []
@@ -711,6 +726,34 @@ class Interp:
                 if okay:
                     for arm, a in arms_out:
                         out += self.ev(arm["body"], a)
+                    continue
+            ev_ = self.as_enumval(sv)
+            if ev_ is not None:
+                # a value constructed a few lines above: the arm is selected statically, payloads are the arguments
+                chosen = None
+                for arm in e["arms"]:
+                    for pc in rx.pat_cases(arm["pat"]):
+                        q = pc
+                        while q["k"] in ("ref", "typed"):
+                            q = q["pat"]
+                        pv = rx.pat_variant(q)
+                        if pv and pv[0].split("::")[-1] == ev_[1] and (len(pv[0].split("::")) < 2 or pv[0].split("::")[-2] in (ev_[0], "Self")) and arm["guard"] is None:
+                            chosen = (arm, q)
+                            break
+                        if rx.is_catchall(q) and arm["guard"] is None:
+                            chosen = (arm, q)
+                            break
+                    if chosen:
+                        break
+                if chosen is not None:
+                    arm, q = chosen
+                    a = s1.fork()
+                    if q["k"] == "tstruct" and len(q["elems"]) == len(ev_[2]):
+                        for pe_, x in zip(q["elems"], ev_[2]):
+                            self.bind_pattern(pe_, x, a)
+                    elif q["k"] == "ident":
+                        a.env[q["name"]] = sv
+                    out += self.ev(arm["body"], a)
                     continue
             if isinstance(sv, dict) and sv.get("v") == "entry":
                 okay = True
@@ -1460,6 +1503,17 @@ class Interp:
             return [(st, {"v": "sub"})]
         if k == "hole" and rv.get("kind") in ("param",) and rv.get("dyn") and True:
             return [(st, H("mgr", src(e), method=m, args=argv))]
+        if k == "hole" and self.as_enumval(rv) is not None:
+            en_ = self.as_enumval(rv)[0]
+            key0 = "%s::%s" % (en_, m)
+            fn0 = self.f.fns.get(key0)
+            if fn0 is not None and not fn0.test and fn0.node.get("self") is not None and key0 not in getattr(self, "_callstack", []) and self.f.enums[en_].get("vis") != "pub":
+                stack = getattr(self, "_callstack", [])
+                self._callstack = stack + [key0]
+                try:
+                    return self.call_method(key0, argv, st, e, prefix="", self_val=rv)
+                finally:
+                    self._callstack = stack
         if k == "hole":
             # a private method of a crate type called on a symbolic value of that type: looked into, with `self` bound to the
             # value (public methods stay symbolic: their names are interface)
